@@ -12,6 +12,7 @@ import (
 	"path/filepath"
 	"strings"
 	"sync"
+	"syscall"
 	"time"
 
 	"github.com/bolkedebruin/rdpgw/cmd/rdpgw/kdcproxy"
@@ -58,16 +59,18 @@ type kdcBehaviour struct {
 }
 
 type fakeKDC struct {
-	port     int
-	tcp      kdcBehaviour
-	udp      kdcBehaviour
-	ln       net.Listener
-	uc       *net.UDPConn
-	mu       sync.Mutex
-	tcpGot   [][]byte
-	udpGot   [][]byte
-	held     []net.Conn
-	stopping bool
+	reserved    []int
+	reservedUDP *net.UDPConn
+	port        int
+	tcp         kdcBehaviour
+	udp         kdcBehaviour
+	ln          net.Listener
+	uc          *net.UDPConn
+	mu          sync.Mutex
+	tcpGot      [][]byte
+	udpGot      [][]byte
+	held        []net.Conn
+	stopping    bool
 }
 
 func startFakeKDC(tcp, udp kdcBehaviour) *fakeKDC {
@@ -84,15 +87,29 @@ func startFakeKDC(tcp, udp kdcBehaviour) *fakeKDC {
 			continue
 		}
 		k := &fakeKDC{port: port, tcp: tcp, udp: udp, ln: l, uc: uc}
+		// a refusing side keeps its port reserved (a freed port can be handed to the proxy's own
+		// client socket as its local port, which would then talk to itself): TCP is bound but does not
+		// listen, UDP is bound and connected elsewhere, so both answer "refused" for ever
 		if tcp.kind == "refuse" {
 			l.Close()
 			k.ln = nil
+			if fd, err := syscall.Socket(syscall.AF_INET, syscall.SOCK_STREAM, 0); err == nil {
+				syscall.SetsockoptInt(fd, syscall.SOL_SOCKET, syscall.SO_REUSEADDR, 1)
+				if syscall.Bind(fd, &syscall.SockaddrInet4{Port: port, Addr: [4]byte{127, 0, 0, 1}}) == nil {
+					k.reserved = append(k.reserved, fd)
+				} else {
+					syscall.Close(fd)
+				}
+			}
 		} else {
 			go k.serveTCP()
 		}
 		if udp.kind == "refuse" {
 			uc.Close()
 			k.uc = nil
+			if c, err := net.DialUDP("udp4", &net.UDPAddr{IP: net.IPv4(127, 0, 0, 1), Port: port}, &net.UDPAddr{IP: net.IPv4(127, 0, 0, 1), Port: 9}); err == nil {
+				k.reservedUDP = c
+			}
 		} else {
 			go k.serveUDP()
 		}
@@ -181,6 +198,12 @@ func (k *fakeKDC) serveUDP() {
 }
 
 func (k *fakeKDC) stop() {
+	for _, fd := range k.reserved {
+		syscall.Close(fd)
+	}
+	if k.reservedUDP != nil {
+		k.reservedUDP.Close()
+	}
 	if k.ln != nil {
 		k.ln.Close()
 	}
